@@ -102,6 +102,7 @@ type c03State struct {
 	Depth int      // number of crashes on the path
 	Arts  []crashStep
 	Root  core.Store
+	Cmds  []int // roots only: indices into the menu crashed at depth 1 (nil = all)
 }
 
 // crashStep is one element of a replayable crash chain.
@@ -163,6 +164,12 @@ func runC03(env *core.Env) {
 		delete(leg, ".ergo/plans.jsonl")
 		roots = append(roots, &c03State{Store: leg, Path: []string{"S_A-legacy-file"}})
 	}
+	{
+		// the same log with CRLF line ends (a checkout with autocrlf, a log merged in an editor): ergo reads it, so a
+		// crash on it must be survived like any other; reduced menu (append path, composite append, both rewrites)
+		crlf := f.SA.WithLog(bytes.ReplaceAll(f.SA.Log(), []byte("\n"), []byte("\r\n")))
+		roots = append(roots, &c03State{Store: crlf, Path: []string{"S_A-with-CRLF-line-ends"}, Cmds: []int{0, 3, 4, 9, 10}})
+	}
 	var mu sync.Mutex
 	seen := map[string]bool{}
 	key := func(st core.Store) string {
@@ -173,7 +180,11 @@ func runC03(env *core.Env) {
 			}
 		}
 		sort.Strings(other)
-		return core.CanonLog(st.Log()) + "|" + st.LogName() + "|" + strings.Join(other, ",")
+		crlf := ""
+		if bytes.Contains(st.Log(), []byte("\r\n")) {
+			crlf = "|crlf" // line-end style is not in the canonical rendering but is part of what a reader has to cope with
+		}
+		return core.CanonLog(st.Log()) + "|" + st.LogName() + "|" + strings.Join(other, ",") + crlf
 	}
 	var crashStates, tornStates, followUps, straceRuns, notLanded, statesChecked int64
 	classes := newCounter()
@@ -322,7 +333,14 @@ func runC03(env *core.Env) {
 			if !env.TimeLeft() {
 				return
 			}
-			for _, ns := range expand(w, fr[i], cmds) {
+			use := cmds
+			if depth == 1 && fr[i].Cmds != nil {
+				use = nil
+				for _, ci := range fr[i].Cmds {
+					use = append(use, menu[ci])
+				}
+			}
+			for _, ns := range expand(w, fr[i], use) {
 				k := key(ns.Store)
 				mu.Lock()
 				dup := seen[k]
@@ -367,7 +385,7 @@ func runC03(env *core.Env) {
 		"crash_states": crashStates, "torn_states": tornStates, "distinct_states": len(seen), "states_checked": statesChecked,
 		"recovery_commands_run": followUps, "strace_runs": straceRuns, "kill_points_not_landed": notLanded, "outcome_classes": classes.snapshot(),
 		"unconfirmed_candidates": unconfirmed.Load(),
-		"explanation":            "explicit-state search over crash states: from 3 pre-states every command of a 14-command menu is killed (production binary, SIGKILL via strace) on entry to every store-mutating system call, and every log write is additionally cut short at byte offsets {1,2,L/2,L-2,L-1} (thorough: every offset); each distinct state must be readable, show exactly its whole events, keep every earlier event in order, and every menu command must then behave exactly as on the clean store with the same whole events and leave the store readable; damaged states (torn tail / temp file) are crashed again (depth 2; thorough 3)",
+		"explanation":            "explicit-state search over crash states: from 3 pre-states (+ the first one with CRLF line ends, reduced menu) every command of a 15-command menu is killed (production binary, SIGKILL via strace) on entry to every store-mutating system call, and every log write is additionally cut short at byte offsets {1,2,L/2,L-2,L-1} (thorough: every offset); each distinct state must be readable, show exactly its whole events, keep every earlier event in order, and every menu command must then behave exactly as on the clean store with the same whole events and leave the store readable; damaged states (torn tail / temp file) are crashed again (depth 2; thorough 3)",
 	}, []string{
 		"process death only: page cache survives SIGKILL, no power-loss / fsync reordering model",
 		"a torn write is a byte prefix of the data of one write(2)",
